@@ -3,10 +3,12 @@
 use crate::case::{CaseOut, Ctx};
 
 pub mod c01;
+pub mod c02;
 
 pub fn n_cases(ctx: &Ctx) -> u64 {
     match ctx.prop.as_str() {
         "C01" => c01::n_cases(ctx),
+        "C02" => c02::n_cases(ctx),
         _ => 0,
     }
 }
@@ -14,6 +16,7 @@ pub fn n_cases(ctx: &Ctx) -> u64 {
 pub fn run_case(ctx: &Ctx, idx: u64) -> Vec<CaseOut> {
     match ctx.prop.as_str() {
         "C01" => c01::run_case(ctx, idx),
+        "C02" => c02::run_case(ctx, idx),
         _ => Vec::new(),
     }
 }
